@@ -153,6 +153,8 @@ def run_model(scripts, impl_outs=None, ovf=True, monitors=()):
                 extra = ""
                 if io is not None and monitors and io.kind in ("R", "N"):
                     extra = " impl=" + (io.reply.hex() if io.kind == "R" else "N")
+                    if io.tsize is not None:
+                        extra += " tsize=%d" % io.tsize
                 lines.append("F " + f.hex() + clock_of(io) + extra)
         out = _run_proc([MODEL_RUN, envfile, ",".join(monitors)], "\n".join(lines) + "\n")
         res = []
